@@ -39,6 +39,10 @@ type SvcEvent struct {
 	Seq   int
 	Time  int
 	Tag   int // stream sequence number carried by the event (0 if none)
+	// Pos is the last stream position emitted on the resource up to and
+	// including this event; Payload is the event payload as emitted.
+	Pos     int
+	Payload string
 }
 
 // SvcModel is the atomic service: answers are computed when delivered.
@@ -176,7 +180,7 @@ func (s *SvcModel) emit(key, event, payload string) {
 	r := s.Res[key]
 	if r != nil {
 		r.Seq++
-		s.Events = append(s.Events, SvcEvent{Key: key, Event: event, Seq: r.Seq, Time: s.w.time})
+		s.Events = append(s.Events, SvcEvent{Key: key, Event: event, Seq: r.Seq, Time: s.w.time, Pos: r.StreamLast, Payload: payload})
 	}
 	s.w.MQ.Publish("event."+name+"."+event, []byte(payload))
 }
